@@ -136,3 +136,506 @@ Proof.
     now apply R_tracker.
   - split; [now apply R_tracker|cbn [fst snd set_tracker m_tlog]; now rewrite app_nil_r].
 Qed.
+
+Lemma mark_unavail_ref : forall cfg m s n d t l, R m s ->
+  R (mark_unavail cfg m n d t l) (fst (if suppressed s then (s, []) else s_counted_failure cfg s n d t))
+  /\ m_tlog (mark_unavail cfg m n d t l)
+     = m_tlog m ++ snd (if suppressed s then (s, []) else s_counted_failure cfg s n d t).
+Proof.
+  intros cfg m s n d t l HR. unfold mark_unavail.
+  pose proof (R_suppressed m s HR) as Hsup. rewrite Hsup.
+  destruct (suppressed s) eqn:Hs; [split; [exact HR|now rewrite app_nil_r]|].
+  rewrite (alive_read m s n d HR). rewrite threshold_doc.
+  unfold s_counted_failure; cbv zeta.
+  destruct (sa (s_dom s n d)) eqn:Hsa.
+  - (* alive: the counters agree *)
+    destruct HR as (R1 & R2 & R3 & R4 & R5). destruct (R2 n d Hsa) as (Ef & Et).
+    pose proof (conj R1 (conj R2 (conj R3 (conj R4 R5))) : R m s) as HR.
+    destruct t; cbn [sa sp st andb].
+    + rewrite Et. rewrite (N.leb_antisym _ (k_traffic d)).
+      destruct (st (s_dom s n d) + 1 <? k_traffic d) eqn:Hc; cbn [negb xorb andb md_alive md_fail md_traffic].
+      * match goal with |- context [inform cfg ?M n d true l] =>
+          set (M0 := M); pose proof (inform_health cfg M0 n d true l) as HH end.
+        split; [eapply R_health; [exact HH|]|destruct HH as (_ & _ & _ & _ & E); rewrite E; cbn; now rewrite app_nil_r].
+        subst M0. apply R_point2 with (v := true); auto.
+        -- intros d'. apply point_alive.
+        -- intros d' Hd; cbn [md_fail md_traffic]. now rewrite !idx_other.
+        -- intros _. cbn [md_fail md_traffic sp st]. rewrite upd_same. now split.
+      * match goal with |- context [inform cfg ?M n d false l] =>
+          set (M0 := M); pose proof (inform_health cfg M0 n d false l) as HH end.
+        match goal with |- context [s_death_transition cfg ?S n] => set (S0 := S) end.
+        assert (HM : R M0 (fst (s_death_transition cfg S0 n))
+                     /\ m_tlog M0 = (m_tlog m ++ [(n, d, false)]) ++ snd (s_death_transition cfg S0 n)).
+        { subst M0. apply notify_failure_ref; [|exact Hsup].
+          apply R_log. subst S0. apply R_point2 with (v := false); auto.
+          - intros d'. apply point_alive.
+          - intros d' Hd; cbn [md_fail md_traffic]. now rewrite !idx_other.
+          - discriminate. }
+        destruct HM as (HM1 & HM2). destruct (s_death_transition cfg S0 n) as [s2 lg]. cbn [fst snd] in *.
+        split; [eapply R_health; eauto|].
+        destruct HH as (_ & _ & _ & _ & E). rewrite E, HM2. now rewrite <- app_assoc.
+    + rewrite Ef. rewrite (N.leb_antisym _ (k_probe d)).
+      destruct (sp (s_dom s n d) + 1 <? k_probe d) eqn:Hc; cbn [negb xorb andb md_alive md_fail md_traffic].
+      * match goal with |- context [inform cfg ?M n d true l] =>
+          set (M0 := M); pose proof (inform_health cfg M0 n d true l) as HH end.
+        split; [eapply R_health; [exact HH|]|destruct HH as (_ & _ & _ & _ & E); rewrite E; cbn; now rewrite app_nil_r].
+        subst M0. apply R_point2 with (v := true); auto.
+        -- intros d'. apply point_alive.
+        -- intros d' Hd; cbn [md_fail md_traffic]. now rewrite !idx_other.
+        -- intros _. cbn [md_fail md_traffic sp st]. rewrite upd_same. now split.
+      * match goal with |- context [inform cfg ?M n d false l] =>
+          set (M0 := M); pose proof (inform_health cfg M0 n d false l) as HH end.
+        match goal with |- context [s_death_transition cfg ?S n] => set (S0 := S) end.
+        assert (HM : R M0 (fst (s_death_transition cfg S0 n))
+                     /\ m_tlog M0 = (m_tlog m ++ [(n, d, false)]) ++ snd (s_death_transition cfg S0 n)).
+        { subst M0. apply notify_failure_ref; [|exact Hsup].
+          apply R_log. subst S0. apply R_point2 with (v := false); auto.
+          - intros d'. apply point_alive.
+          - intros d' Hd; cbn [md_fail md_traffic]. now rewrite !idx_other.
+          - discriminate. }
+        destruct HM as (HM1 & HM2). destruct (s_death_transition cfg S0 n) as [s2 lg]. cbn [fst snd] in *.
+        split; [eapply R_health; eauto|].
+        destruct HH as (_ & _ & _ & _ & E). rewrite E, HM2. now rewrite <- app_assoc.
+  - (* already dead: only the counter moves *)
+    cbn [andb].
+    assert (Hal : forall (c : bool), (if c then false else false) = false) by (destruct c; reflexivity).
+    destruct t; cbv zeta; rewrite Hal; cbn [xorb andb negb md_alive md_fail md_traffic];
+      match goal with |- context [inform cfg ?M n d false l] =>
+          set (M0 := M); pose proof (inform_health cfg M0 n d false l) as HH end;
+      (split; [eapply R_health; [exact HH|]|destruct HH as (_ & _ & _ & _ & E); rewrite E; cbn; now rewrite app_nil_r]);
+      subst M0; apply R_point2 with (v := false); auto; try discriminate;
+      try (intros d'; apply point_alive);
+      intros d' Hd; cbn [md_fail md_traffic]; now rewrite ?idx_other.
+Qed.
+
+Lemma mark_avail_ref : forall cfg m s n d l, R m s -> m_tracker m 0 = 0 ->
+  R (mark_avail cfg m n d l) (fst (s_success cfg s n d))
+  /\ m_tlog (mark_avail cfg m n d l) = m_tlog m ++ snd (s_success cfg s n d).
+Proof.
+  intros cfg m s n d l HR H0. unfold mark_avail; cbv zeta.
+  match goal with |- context [inform cfg ?M n d true l] =>
+    set (M0 := M); pose proof (inform_health cfg M0 n d true l) as HH end.
+  assert (HM : R M0 (fst (s_success cfg s n d)) /\ m_tlog M0 = m_tlog m ++ snd (s_success cfg s n d)).
+  { subst M0. unfold s_success; cbn [fst snd]. rewrite (alive_read m s n d HR).
+    assert (HP : R (set_dialer m n
+                 {| md_alive := upd (md_alive (m_d m n)) (canon (index_of d)) true;
+                    md_fail := upd (md_fail (m_d m n)) (index_of d) 0;
+                    md_traffic := upd (md_traffic (m_d m n)) (index_of d) 0 |})
+               (s_set s n d sfresh)).
+    { apply R_point2 with (v := true); auto.
+      - intros d'. apply point_alive.
+      - intros d' Hd; cbn [md_fail md_traffic]. now rewrite !idx_other.
+      - intros _. cbn [md_fail md_traffic sfresh sp st]. now rewrite !upd_same. }
+    match goal with |- context [set_dialer m n ?X] => set (x' := X) in * end.
+    assert (HP2 : R (if c_addr cfg n =? 0 then set_dialer m n x' else set_tracker (set_dialer m n x') (c_addr cfg n) 0)
+                    (s_set_deaths (s_set s n d sfresh) (c_addr cfg n) 0)).
+    { destruct (c_addr cfg n =? 0) eqn:Ea.
+      - apply N.eqb_eq in Ea. rewrite Ea. apply R_tracker0; [exact HP|exact H0].
+      - now apply R_tracker. }
+    destruct (sa (s_dom s n d)).
+    - split; [exact HP2|]. destruct (c_addr cfg n =? 0); cbn [set_tracker set_dialer m_tlog]; now rewrite app_nil_r.
+    - split; [apply R_log, HP2|]. destruct (c_addr cfg n =? 0); reflexivity. }
+  destruct HM as (HM1 & HM2). split; [eapply R_health; eauto|].
+  destruct HH as (_ & _ & _ & _ & E). now rewrite E.
+Qed.
+
+Lemma traffic_ok_ref : forall cfg m s n d l, R m s -> m_tracker m 0 = 0 ->
+  R (traffic_ok cfg m n d l) (fst (s_step cfg s (ETrafficOk n d l)))
+  /\ m_tlog (traffic_ok cfg m n d l) = m_tlog m ++ snd (s_step cfg s (ETrafficOk n d l)).
+Proof.
+  intros cfg m s n d l HR H0. unfold traffic_ok; cbv zeta. cbn [s_step].
+  set (x' := if md_traffic (m_d m n) (index_of d) =? 0 then m_d m n else _).
+  assert (Hxa : md_alive x' = md_alive (m_d m n)) by (subst x'; destruct (_ =? 0); reflexivity).
+  assert (Hxf : md_fail x' = md_fail (m_d m n)) by (subst x'; destruct (_ =? 0); reflexivity).
+  assert (Hxt0 : md_traffic x' (index_of d) = 0).
+  { subst x'; destruct (_ =? 0) eqn:E; [now apply N.eqb_eq in E|]. cbn [md_traffic]. apply upd_same. }
+  assert (Hxt : forall d', dom_eqb d' d = false -> md_traffic x' (index_of d') = md_traffic (m_d m n) (index_of d')).
+  { intros d' Hd. subst x'; destruct (_ =? 0); [reflexivity|]. cbn [md_traffic]. now apply idx_other. }
+  rewrite Hxa, (alive_read m s n d HR).
+  assert (HP : R (set_dialer m n x') (s_set s n d {| sa := sa (s_dom s n d); sp := sp (s_dom s n d); st := 0 |})).
+  { apply R_point2 with (v := sa (s_dom s n d)); auto.
+    - intros d'. unfold d_alive. rewrite Hxa. destruct (dom_eqb d' d) eqn:Ed; [|reflexivity].
+      apply dom_eqb_eq in Ed; subst d'. apply (alive_read m s n d HR).
+    - intros d' Hd. rewrite Hxf. split; [reflexivity|now apply Hxt].
+    - intros Hv. cbn [sp st]. rewrite Hxf, Hxt0. destruct HR as (_ & R2 & _). destruct (R2 n d Hv) as (-> & _). now split. }
+  destruct (is_data d && negb (sa (s_dom s n d))) eqn:Hc.
+  - (* revive *)
+    apply andb_true_iff in Hc. destruct Hc as (_ & Hdead). apply negb_true_iff in Hdead.
+    assert (HP' : R (set_dialer m n x') s).
+    { destruct HR as (R1 & R2 & R3 & R4 & R5).
+      unfold R, set_dialer; cbn [m_d m_tracker m_supp m_window].
+      split; [|split; [|split; [|split]]]; try assumption.
+      - intros n' d'. unfold upd. destruct (n' =? n) eqn:En; [|apply R1].
+        apply N.eqb_eq in En; subst n'. unfold d_alive. rewrite Hxa. apply R1.
+      - intros n' d' Hs. unfold upd. destruct (n' =? n) eqn:En; [|now apply R2].
+        apply N.eqb_eq in En; subst n'. rewrite Hxf.
+        destruct (dom_eqb d' d) eqn:Ed.
+        + apply dom_eqb_eq in Ed; subst d'. congruence.
+        + rewrite (Hxt d' Ed). now apply R2. }
+    apply (mark_avail_ref cfg (set_dialer m n x') s n d l HP' H0).
+  - split; [exact HP|cbn [set_dialer m_tlog snd]; now rewrite app_nil_r].
+Qed.
+
+(* ---------- the step ---------- *)
+Lemma R_clear : forall m s, R m s -> R (clear_logs m) s.
+Proof. intros m s H. exact H. Qed.
+
+Lemma C16_step_refines_proof_partial : forall cfg m s e, no_reload e = true -> m_tracker m 0 = 0 -> R m s ->
+  R (m_step cfg m e) (fst (s_step cfg s e)) /\ m_tlog (m_step cfg m e) = snd (s_step cfg s e).
+Proof.
+  intros cfg m s e Hnr H0 HR. apply R_clear in HR.
+  assert (H0' : m_tracker (clear_logs m) 0 = 0) by exact H0.
+  assert (HL : m_tlog (clear_logs m) = []) by reflexivity.
+  unfold m_step; cbv zeta. set (mc := clear_logs m) in *. clearbody mc.
+  destruct e as [n d k ign l|n d l|n d|n d l| | | | |l]; try discriminate Hnr.
+  - destruct k.
+    1-3: destruct ign; cbn [s_step orb is_traffic fst snd]; [split; [exact HR|exact HL]|];
+         destruct (mark_unavail_ref cfg mc s n d false l HR) as (A & B);
+         destruct (mark_unavail_ref cfg mc s n d true l HR) as (A' & B'); rewrite HL in B, B'; cbn [app] in B, B'.
+    + split; [exact A|exact B].
+    + split; [exact A|exact B].
+    + split; [exact A'|exact B'].
+    + cbn [s_step]. destruct (mark_forced_ref cfg mc s n d l HR) as (A & B). rewrite HL in B. now split.
+  - cbn [s_step]. destruct (mark_avail_ref cfg mc s n d l HR H0') as (A & B). rewrite HL in B. now split.
+  - cbn [s_step fst snd]. now split.
+  - destruct (traffic_ok_ref cfg mc s n d l HR H0') as (A & B). rewrite HL in B. now split.
+  - cbn [s_step fst snd]. split; [|exact HL].
+    destruct HR as (R1 & R2 & R3 & R4 & R5). unfold R, set_supp; cbn [m_d m_tracker m_supp m_window s_dom s_deaths s_supp s_window].
+    rewrite R4. exact (conj R1 (conj R2 (conj R3 (conj eq_refl R5)))).
+  - cbn [s_step]. destruct HR as (R1 & R2 & R3 & R4 & R5). rewrite R4.
+    destruct (s_supp s =? 0); cbn [fst snd]; (split; [|exact HL]).
+    + exact (conj R1 (conj R2 (conj R3 (conj R4 R5)))).
+    + unfold R, set_supp; cbn [m_d m_tracker m_supp m_window s_dom s_deaths s_supp s_window].
+      rewrite R5. exact (conj R1 (conj R2 (conj R3 (conj eq_refl eq_refl)))).
+  - cbn [s_step fst snd]. split; [|exact HL].
+    destruct HR as (R1 & R2 & R3 & R4 & R5). unfold R, set_supp; cbn [m_d m_tracker m_supp m_window s_dom s_deaths s_supp s_window].
+    exact (conj R1 (conj R2 (conj R3 (conj R4 eq_refl)))).
+  - cbn [s_step fst snd]. split; [|exact HL].
+    destruct HR as (R1 & R2 & R3 & R4 & R5). unfold R; cbn [m_d m_tracker m_supp m_window s_dom s_deaths s_supp s_window].
+    exact (conj R1 (conj R2 (conj (fun _ => eq_refl) (conj R4 R5)))).
+Qed.
+
+(* ---------- the statement without the side condition is false: address 0 means "no address" and the
+   model never touches the tracker slot 0, while the spec's success clears s_deaths (c_addr cfg n) ---------- *)
+Definition cex_cfg : config := {| c_addr := fun _ => 0; c_groups := []; c_tol := 0%Z |}.
+Definition cex_m : mstate :=
+  {| m_d := fun _ => fresh_dialer; m_tracker := fun _ => 5; m_supp := 0; m_window := false;
+     m_sets := fun _ _ => empty_set; m_bits := fun _ _ => true; m_tlog := []; m_blog := [] |}.
+
+Lemma C16_R_abs_proof : forall m, R m (abs_state m).
+Proof.
+  intros m. unfold R, abs_state; cbn [s_dom s_deaths s_supp s_window sa sp st].
+  split; [reflexivity|split; [intros; now split|split; [reflexivity|now split]]].
+Qed.
+
+Lemma C16_step_refines_proof_counterexample :
+  no_reload (EProbeOk 0 Tcp4 []) = true /\ R cex_m (abs_state cex_m)
+  /\ m_tracker (m_step cex_cfg cex_m (EProbeOk 0 Tcp4 [])) 0 = 5
+  /\ s_deaths (fst (s_step cex_cfg (abs_state cex_m) (EProbeOk 0 Tcp4 []))) 0 = 0
+  /\ ~ (forall cfg m s e, no_reload e = true -> R m s ->
+          R (m_step cfg m e) (fst (s_step cfg s e)) /\ m_tlog (m_step cfg m e) = snd (s_step cfg s e)).
+Proof.
+  split; [reflexivity|]. split; [apply C16_R_abs_proof|].
+  split; [vm_compute; reflexivity|]. split; [vm_compute; reflexivity|].
+  intros H. destruct (H cex_cfg cex_m (abs_state cex_m) (EProbeOk 0 Tcp4 []) eq_refl (C16_R_abs_proof cex_m))
+    as ((_ & _ & T & _) & _).
+  specialize (T 0). vm_compute in T. discriminate.
+Qed.
+
+(* ---------- tracker slot 0 is never written (all events, reload included) ---------- *)
+Lemma mark_forced_tracker : forall cfg m n d l, m_tracker (mark_forced cfg m n d l) = m_tracker m.
+Proof.
+  intros. unfold mark_forced; cbv zeta.
+  match goal with |- context [inform cfg ?M n d false l] =>
+    destruct (inform_health cfg M n d false l) as (_ & E & _); rewrite E end.
+  destruct (md_alive _ _); reflexivity.
+Qed.
+Lemma escalate_tracker : forall cfg m n l, m_tracker (escalate cfg m n l) = m_tracker m.
+Proof. intros. unfold escalate. apply fold_tracker. intros; apply mark_forced_tracker. Qed.
+Lemma notify_failure_tracker0 : forall cfg m n l, m_tracker (notify_failure cfg m n l) 0 = m_tracker m 0.
+Proof.
+  intros. unfold notify_failure; cbv zeta. destruct (c_addr cfg n =? 0) eqn:Ea; [reflexivity|].
+  destruct (m_suppressed m); [reflexivity|].
+  destruct (_ <=? _); [rewrite escalate_tracker|]; cbn [set_tracker m_tracker]; apply upd_other; now rewrite N.eqb_sym.
+Qed.
+Lemma mark_unavail_tracker0 : forall cfg m n d t l, m_tracker (mark_unavail cfg m n d t l) 0 = m_tracker m 0.
+Proof.
+  intros. unfold mark_unavail. destruct (m_suppressed m); [reflexivity|].
+  destruct t; cbv beta iota zeta;
+    match goal with |- context [inform cfg ?M n d ?a l] =>
+      destruct (inform_health cfg M n d a l) as (_ & E & _); rewrite E; clear E end;
+    destruct (md_alive _ _); destruct (_ <? _); cbn [xorb andb negb]; rewrite ?notify_failure_tracker0; reflexivity.
+Qed.
+Lemma mark_avail_tracker0 : forall cfg m n d l, m_tracker (mark_avail cfg m n d l) 0 = m_tracker m 0.
+Proof.
+  intros. unfold mark_avail; cbv zeta.
+  match goal with |- context [inform cfg ?M n d true l] =>
+    destruct (inform_health cfg M n d true l) as (_ & E & _); rewrite E; clear E end.
+  destruct (c_addr cfg n =? 0) eqn:Ea; destruct (md_alive _ _); cbn [log_transition set_tracker set_dialer m_tracker];
+    try reflexivity; apply upd_other; now rewrite N.eqb_sym.
+Qed.
+Lemma traffic_ok_tracker0 : forall cfg m n d l, m_tracker (traffic_ok cfg m n d l) 0 = m_tracker m 0.
+Proof.
+  intros. unfold traffic_ok; cbv zeta. destruct (is_data d && _); [rewrite mark_avail_tracker0|]; reflexivity.
+Qed.
+
+Lemma new_group_health : forall cfg m gi g, health_eq m (new_group cfg m gi g).
+Proof.
+  intros. unfold new_group; cbv zeta.
+  match goal with |- context [if keeps_sets g then ?X else m] => set (m1 := if keeps_sets g then X else m) end.
+  assert (H : health_eq m m1).
+  { subst m1. destruct (keeps_sets g); [|apply health_refl].
+    apply fold_health. intros m0 d0. apply fold_health. intros m2 e. apply inform_group_health. }
+  destruct H as (A & B & C & D & E). repeat split; assumption.
+Qed.
+Lemma new_groups_health : forall cfg gs m gi, health_eq m (new_groups cfg m gi gs).
+Proof.
+  induction gs as [|g r IH]; intros; cbn [new_groups]; [apply health_refl|].
+  eapply health_trans; [apply new_group_health|apply IH].
+Qed.
+
+Lemma restore_tracker : forall cfg old m n l, m_tracker (restore cfg old m n l) = m_tracker m.
+Proof.
+  intros. unfold restore. destruct (fold_left _ all_idx _) as [x' ups]. cbv zeta.
+  rewrite fold_tracker; [reflexivity|].
+  intros m0 [[i was] al]. cbv zeta.
+  destruct (inform_health cfg m0 n (dom_of_idx i) al l) as (_ & E & _).
+  destruct (xorb was al); cbn [log_transition m_tracker]; exact E.
+Qed.
+Lemma mark_alive_fallback_tracker : forall cfg m n d l, m_tracker (mark_alive_fallback cfg m n d l) = m_tracker m.
+Proof.
+  intros. unfold mark_alive_fallback; cbv zeta.
+  match goal with |- context [inform cfg ?M n d true l] =>
+    destruct (inform_health cfg M n d true l) as (_ & E & _) end.
+  destruct (md_alive _ _); cbn [log_transition m_tracker]; exact E.
+Qed.
+Lemma ensure_floor_tracker : forall cfg m gi g fb l, m_tracker (ensure_floor cfg m gi g fb l) = m_tracker m.
+Proof.
+  intros. unfold ensure_floor. destruct (keeps_sets g); [|reflexivity].
+  apply fold_tracker. intros m0 d0. destruct (negb _); [reflexivity|].
+  destruct (fb d0); [apply mark_alive_fallback_tracker|].
+  destruct (g_members g); [reflexivity|apply mark_alive_fallback_tracker].
+Qed.
+Lemma inherit_tracker : forall cfg old l gs m gi, m_tracker (inherit cfg old m gi gs l) = m_tracker m.
+Proof.
+  intros cfg old l. induction gs as [|g r IH]; intros; cbn [inherit]; [reflexivity|]. cbv zeta.
+  rewrite IH, ensure_floor_tracker. apply fold_tracker. intros; apply restore_tracker.
+Qed.
+Lemma m_reload_tracker : forall cfg m l, m_tracker (m_reload cfg m l) = m_tracker m.
+Proof.
+  intros. unfold m_reload. rewrite inherit_tracker. unfold m_fresh_generation.
+  match goal with |- context [new_groups cfg ?M 0 ?G] => destruct (new_groups_health cfg G M 0) as (_ & E & _) end.
+  exact E.
+Qed.
+
+Lemma tracker0_step : forall cfg m e, m_tracker m 0 = 0 -> m_tracker (m_step cfg m e) 0 = 0.
+Proof.
+  intros cfg m e H0. assert (H : m_tracker (clear_logs m) 0 = 0) by exact H0.
+  unfold m_step; cbv zeta. set (mc := clear_logs m) in *. clearbody mc.
+  destruct e as [n d k ign l|n d l|n d|n d l| | | | |l]; try exact H; try reflexivity.
+  - destruct k; try (destruct ign; [exact H|rewrite mark_unavail_tracker0; exact H]).
+    rewrite mark_forced_tracker; exact H.
+  - rewrite mark_avail_tracker0; exact H.
+  - rewrite traffic_ok_tracker0; exact H.
+  - destruct (m_supp mc =? 0); exact H.
+  - rewrite m_reload_tracker; exact H.
+Qed.
+
+Lemma m_init_health : forall cfg, m_d (m_init cfg) = (fun _ => fresh_dialer) /\ m_tracker (m_init cfg) = (fun _ => 0)
+  /\ m_supp (m_init cfg) = 0 /\ m_window (m_init cfg) = false.
+Proof.
+  intros. unfold m_init, m_fresh_generation.
+  match goal with |- context [new_groups cfg ?M 0 ?G] => destruct (new_groups_health cfg G M 0) as (A & B & C & D & _) end.
+  repeat split; assumption.
+Qed.
+
+Lemma tracker0_run : forall cfg h, m_tracker (m_run cfg h) 0 = 0.
+Proof.
+  intros cfg h. unfold m_run.
+  assert (G : forall h m, m_tracker m 0 = 0 -> m_tracker (fold_left (m_step cfg) h m) 0 = 0).
+  { induction h0 as [|e r IH]; intros m Hm; cbn [fold_left]; [exact Hm|]. apply IH. now apply tracker0_step. }
+  apply G. destruct (m_init_health cfg) as (_ & E & _). now rewrite E.
+Qed.
+
+(* ---------- required statements ---------- *)
+Lemma C16_R_init_proof : forall cfg, R (m_init cfg) s_init.
+Proof.
+  intros. destruct (m_init_health cfg) as (A & B & C & D).
+  unfold R. rewrite A, B, C, D. unfold s_init; cbn [s_dom s_deaths s_supp s_window sfresh sa sp st].
+  split; [intros n d; destruct d; reflexivity|]. split; [intros; now split|]. now repeat split.
+Qed.
+
+Lemma C16_run_refines_proof : forall cfg h0 s0 h, R (m_run cfg h0) s0 -> Forall (fun e => no_reload e = true) h ->
+  R (m_run cfg (h0 ++ h)) (s_run_from cfg s0 h).
+Proof.
+  intros cfg h0 s0 h. revert h0 s0. induction h as [|e r IH]; intros h0 s0 HR HF.
+  - rewrite app_nil_r. exact HR.
+  - inversion HF as [|e' r' He Hr]; subst.
+    replace (h0 ++ e :: r) with ((h0 ++ [e]) ++ r) by (rewrite <- app_assoc; reflexivity).
+    cbn [s_run_from fold_left]. apply (IH (h0 ++ [e]) (fst (s_step cfg s0 e))); [|exact Hr].
+    rewrite m_run_snoc. apply C16_step_refines_proof_partial; auto. apply tracker0_run.
+Qed.
+
+(* the step statement holds at every reachable model state (any history, reloads included) *)
+Lemma C16_step_refines_reachable : forall cfg h s e, no_reload e = true -> R (m_run cfg h) s ->
+  R (m_step cfg (m_run cfg h) e) (fst (s_step cfg s e)) /\ m_tlog (m_step cfg (m_run cfg h) e) = snd (s_step cfg s e).
+Proof. intros. apply C16_step_refines_proof_partial; auto. apply tracker0_run. Qed.
+
+Lemma run_R : forall cfg h, Forall (fun e => no_reload e = true) h -> R (m_run cfg h) (s_run cfg h).
+Proof.
+  intros cfg h HF. exact (C16_run_refines_proof cfg [] s_init h (C16_R_init_proof cfg) HF).
+Qed.
+
+Lemma C16_thresholds_proof : forall cfg h, Forall (fun e => no_reload e = true) h ->
+  forall n d, model_alive cfg h n d = spec_alive cfg h n d.
+Proof.
+  intros cfg h HF n d. destruct (run_R cfg h HF) as (A & _). unfold model_alive, spec_alive. apply A.
+Qed.
+
+Lemma C16_transitions_refine_proof : forall cfg h e, Forall (fun e => no_reload e = true) h -> no_reload e = true ->
+  m_tlog (m_run cfg (h ++ [e])) = spec_transitions cfg h e.
+Proof.
+  intros cfg h e HF He. rewrite m_run_snoc. unfold spec_transitions.
+  apply C16_step_refines_proof_partial; auto; [apply tracker0_run|now apply run_R].
+Qed.
+
+(* ---------- spec-side computations ---------- *)
+Definition esc_fold (n : N) (ds : list dom) (acc : sstate * tlog) : sstate * tlog :=
+  fold_left (fun acc d => let '(s', l') := s_kill (fst acc) n d in (s', snd acc ++ l')) ds acc.
+
+Lemma esc_fold_sa : forall n n' d' ds acc,
+  sa (s_dom (fst (esc_fold n ds acc)) n' d')
+  = if (n' =? n) && existsb (dom_eqb d') ds then false else sa (s_dom (fst acc) n' d').
+Proof.
+  intros n n' d'. induction ds as [|d r IH]; intros acc; unfold esc_fold in *; cbn [fold_left existsb].
+  - now rewrite andb_false_r.
+  - rewrite IH. unfold s_kill; cbn [fst snd s_set s_dom].
+    destruct (n' =? n); cbn [andb]; [|reflexivity].
+    destruct (dom_eqb d' d); cbn [orb sa]; [now destruct (existsb _ r)|reflexivity].
+Qed.
+Lemma esc_fold_deaths : forall n ds acc, s_deaths (fst (esc_fold n ds acc)) = s_deaths (fst acc).
+Proof.
+  intros n. induction ds as [|d r IH]; intros acc; unfold esc_fold in *; cbn [fold_left]; [reflexivity|].
+  rewrite IH. reflexivity.
+Qed.
+Lemma s_escalate_sa : forall s n n' d',
+  sa (s_dom (fst (s_escalate s n)) n' d') = if n' =? n then false else sa (s_dom s n' d').
+Proof.
+  intros. unfold s_escalate. change (fold_left _ all_doms (s, [])) with (esc_fold n all_doms (s, [])).
+  rewrite esc_fold_sa. cbn [fst]. replace (existsb (dom_eqb d') all_doms) with true by (destruct d'; reflexivity).
+  now rewrite andb_true_r.
+Qed.
+Lemma s_escalate_deaths : forall s n, s_deaths (fst (s_escalate s n)) = s_deaths s.
+Proof.
+  intros. unfold s_escalate. change (fold_left _ all_doms (s, [])) with (esc_fold n all_doms (s, [])).
+  now rewrite esc_fold_deaths.
+Qed.
+
+(* what one counted failure does *)
+Lemma counted_cases : forall cfg s n d t,
+  (sa (s_dom s n d) = true /\ k_of d t <= run_of (s_dom s n d) t + 1 /\
+     exists sx, sa sx = false /\
+       fst (s_counted_failure cfg s n d t) = fst (s_death_transition cfg (s_set s n d sx) n))
+  \/ ((sa (s_dom s n d) = false \/ run_of (s_dom s n d) t + 1 < k_of d t) /\
+      exists sx, sa sx = sa (s_dom s n d) /\ fst (s_counted_failure cfg s n d t) = s_set s n d sx).
+Proof.
+  intros. unfold s_counted_failure; cbv zeta.
+  assert (E : (if t then k_traffic d <=? st (if t then {| sa := sa (s_dom s n d); sp := sp (s_dom s n d); st := st (s_dom s n d) + 1 |}
+                                              else {| sa := sa (s_dom s n d); sp := sp (s_dom s n d) + 1; st := st (s_dom s n d) |})
+               else k_probe d <=? sp (if t then {| sa := sa (s_dom s n d); sp := sp (s_dom s n d); st := st (s_dom s n d) + 1 |}
+                                      else {| sa := sa (s_dom s n d); sp := sp (s_dom s n d) + 1; st := st (s_dom s n d) |}))
+              = (k_of d t <=? run_of (s_dom s n d) t + 1)) by (destruct t; reflexivity).
+  rewrite E. clear E.
+  destruct (sa (s_dom s n d)) eqn:Hsa; cbn [andb].
+  - destruct (k_of d t <=? run_of (s_dom s n d) t + 1) eqn:Hk.
+    + left. split; [reflexivity|]. split; [now apply N.leb_le|].
+      match goal with |- context [s_death_transition cfg (s_set s n d ?X) n] => exists X end.
+      split; [reflexivity|destruct (s_death_transition cfg _ n) as [s2 lg]; reflexivity].
+    + right. split; [right; now apply N.leb_gt|]. eexists. split; [|reflexivity]. now destruct t.
+  - right. split; [now left|]. eexists. split; [|reflexivity]. now destruct t.
+Qed.
+
+Lemma s_set_same : forall s n d sx, s_dom (s_set s n d sx) n d = sx.
+Proof. intros. unfold s_set; cbn [s_dom]. now rewrite N.eqb_refl, dom_eqb_refl. Qed.
+
+Lemma death_transition_dead : forall cfg s n d,
+  sa (s_dom s n d) = false -> sa (s_dom (fst (s_death_transition cfg s n)) n d) = false.
+Proof.
+  intros cfg s n d H. unfold s_death_transition; cbv zeta.
+  destruct (c_addr cfg n =? 0); [exact H|]. destruct (k_deaths <=? _); [|exact H].
+  rewrite s_escalate_sa. now rewrite N.eqb_refl.
+Qed.
+
+Lemma step_fail_fst : forall cfg s n d k l, k <> KForced ->
+  fst (s_step cfg s (EFail n d k false l))
+  = if suppressed s then s else fst (s_counted_failure cfg s n d (is_traffic k)).
+Proof. intros cfg s n d k l Hk. destruct k; try congruence; cbn [s_step orb]; destruct (suppressed s); reflexivity. Qed.
+
+Lemma C16_death_rule_proof : forall cfg h s n d k l, R (m_run cfg h) s -> k <> KForced ->
+  (model_alive cfg (h ++ [EFail n d k false l]) n d = false
+   <-> (model_alive cfg h n d = false \/ (suppressed s = false /\ k_of d (is_traffic k) <= run_of (s_dom s n d) (is_traffic k) + 1))).
+Proof.
+  intros cfg h s n d k l HR Hk.
+  destruct (C16_step_refines_proof_partial cfg (m_run cfg h) s (EFail n d k false l) eq_refl (tracker0_run cfg h) HR)
+    as ((A & _) & _).
+  unfold model_alive. rewrite m_run_snoc, A. destruct HR as (A0 & _). rewrite A0.
+  rewrite (step_fail_fst cfg s n d k l Hk). clear A.
+  destruct (suppressed s) eqn:Hs.
+  - split; [auto|intros [H|[H _]]; [exact H|discriminate]].
+  - destruct (counted_cases cfg s n d (is_traffic k)) as [(Ha & Hr & sx & Hsx & E)|(Hc & sx & Hsx & E)]; rewrite E.
+    + split; [intros _; right; now split|intros _].
+      apply death_transition_dead. now rewrite s_set_same.
+    + rewrite s_set_same, Hsx. split; [auto|]. intros [H|[_ H]]; [exact H|].
+      destruct Hc as [Hc|Hc]; [exact Hc|lia].
+Qed.
+
+Lemma C16_escalation_after_three_deaths_proof : forall cfg h s n d k l,
+  R (m_run cfg h) s -> k <> KForced -> suppressed s = false ->
+  model_alive cfg h n d = true -> k_of d (is_traffic k) <= run_of (s_dom s n d) (is_traffic k) + 1 ->
+  c_addr cfg n <> 0 ->
+  let m' := m_run cfg (h ++ [EFail n d k false l]) in
+  (forall n' d', n' <> n -> d_alive (m_d m' n') d' = model_alive cfg h n' d')
+  /\ (k_deaths <= s_deaths s (c_addr cfg n) + 1 ->
+        (forall d', d_alive (m_d m' n) d' = false) /\ m_tracker m' (c_addr cfg n) = 0)
+  /\ (s_deaths s (c_addr cfg n) + 1 < k_deaths ->
+        (forall d', d' <> d -> d_alive (m_d m' n) d' = model_alive cfg h n d') /\ d_alive (m_d m' n) d = false
+        /\ m_tracker m' (c_addr cfg n) = s_deaths s (c_addr cfg n) + 1).
+Proof.
+  intros cfg h s n d k l HR Hk Hs Hal Hreach Ha m'.
+  destruct (C16_step_refines_proof_partial cfg (m_run cfg h) s (EFail n d k false l) eq_refl (tracker0_run cfg h) HR)
+    as ((A & _ & T & _) & _).
+  subst m'. rewrite m_run_snoc. unfold model_alive in *. destruct HR as (A0 & _).
+  rewrite A0 in Hal.
+  rewrite (step_fail_fst cfg s n d k l Hk), Hs in A, T.
+  destruct (counted_cases cfg s n d (is_traffic k)) as [(_ & _ & sx & Hsx & E)|([Hc|Hc] & _)]; [|congruence|lia].
+  rewrite E in A, T. clear E.
+  assert (Ea : (c_addr cfg n =? 0) = false) by now apply N.eqb_neq.
+  unfold s_death_transition in A, T; cbv zeta in A, T. rewrite Ea in A, T.
+  change (s_deaths (s_set s n d sx)) with (s_deaths s) in A, T.
+  assert (Hne : forall n', n' <> n -> (n' =? n) = false) by (intros; now apply N.eqb_neq).
+  destruct (k_deaths <=? s_deaths s (c_addr cfg n) + 1) eqn:Hkd.
+  - apply N.leb_le in Hkd. split; [|split; [intros _|intros; lia]].
+    + intros n' d' Hn. rewrite A, A0, s_escalate_sa, (Hne n' Hn).
+      unfold s_set_deaths, s_set; cbn [s_dom]. now rewrite (Hne n' Hn).
+    + split.
+      * intros d'. rewrite A, s_escalate_sa. now rewrite N.eqb_refl.
+      * rewrite T, s_escalate_deaths. unfold s_set_deaths; cbn [s_deaths]. now rewrite N.eqb_refl.
+  - apply N.leb_gt in Hkd. cbn [fst] in A, T. split; [|split; [intros; lia|intros _]].
+    + intros n' d' Hn. rewrite A, A0. unfold s_set_deaths, s_set; cbn [s_dom]. now rewrite (Hne n' Hn).
+    + split; [|split].
+      * intros d' Hd. rewrite A, A0. unfold s_set_deaths, s_set; cbn [s_dom]. rewrite N.eqb_refl; cbn [andb].
+        destruct (dom_eqb d' d) eqn:Ed; [apply dom_eqb_eq in Ed; contradiction|reflexivity].
+      * rewrite A. unfold s_set_deaths, s_set; cbn [s_dom]. now rewrite N.eqb_refl, dom_eqb_refl.
+      * rewrite T. unfold s_set_deaths; cbn [s_deaths]. now rewrite N.eqb_refl.
+Qed.
+
+Print Assumptions C16_R_init_proof.
+Print Assumptions C16_R_abs_proof.
+Print Assumptions C16_step_refines_proof_partial.
+Print Assumptions C16_step_refines_proof_counterexample.
+Print Assumptions C16_step_refines_reachable.
+Print Assumptions C16_run_refines_proof.
+Print Assumptions C16_thresholds_proof.
+Print Assumptions C16_transitions_refine_proof.
+Print Assumptions C16_death_rule_proof.
+Print Assumptions C16_escalation_after_three_deaths_proof.
